@@ -1038,6 +1038,58 @@ func c02Deadline(c *Ctx) {
 			}
 		}
 	}
+	// the first read of a connection (tunnel probe in serverConnReader.runInner): added after the missing deadline
+	// was found to be a genuine defect (findings/first-read-no-deadline)
+	if run := p.Func("", "serverConnReader.runInner"); r.Anchor("C02/DEADLINE", "serverConnReader.runInner", run != nil) {
+		isProbe := func(in ssa.Instruction) bool {
+			cl, ok := in.(*ssa.Call)
+			if !ok {
+				return false
+			}
+			cal := cl.Call.StaticCallee()
+			if cal == nil || cal.Pkg != run.Pkg {
+				return false
+			}
+			// a helper of the reader that reads from the connection before the request loops: it calls io.ReadFull / http.ReadRequest
+			for _, b := range cal.Blocks {
+				for _, x := range b.Instrs {
+					if c2, ok := x.(*ssa.Call); ok {
+						if f := c2.Call.StaticCallee(); f != nil && f.Pkg != nil && (f.Pkg.Pkg.Path() == "io" && f.Name() == "ReadFull" || f.Pkg.Pkg.Path() == "net/http" && f.Name() == "ReadRequest") {
+							return true
+						}
+					}
+				}
+			}
+			return false
+		}
+		isArm := func(in ssa.Instruction) bool {
+			cl, ok := in.(*ssa.Call)
+			if !ok || !cl.Call.IsInvoke() || cl.Call.Method.Name() != "SetReadDeadline" || len(cl.Call.Args) != 1 {
+				return false
+			}
+			// non-zero: the argument is the result of a call (time.Now().Add(..)), not a zero time.Time literal
+			_, isCall := cl.Call.Args[0].(*ssa.Call)
+			return isCall
+		}
+		nProbe := 0
+		for _, b := range run.Blocks {
+			for _, in := range b.Instrs {
+				if !isProbe(in) {
+					continue
+				}
+				nProbe++
+				miss, pp, _ := core.PathAvoiding(run, nil, func(x ssa.Instruction) bool { return x == in }, isArm)
+				if miss {
+					r.FailPath("C02/DEADLINE", "(*serverConnReader).runInner first read of a connection", p.Pos(in.Pos()), "the first bytes of a connection are awaited without a read deadline: a peer that connects and stays silent (or sends fewer than four bytes) is never dropped", core.BlockPath(p, run, pp))
+				} else {
+					r.OK("C02/DEADLINE", "(*serverConnReader).runInner first read of a connection", p.Pos(in.Pos()), "SetReadDeadline(non-zero) before the tunnel probe")
+				}
+			}
+		}
+		if nProbe == 0 {
+			r.Observe("C02/DEADLINE", "(*serverConnReader).runInner first read of a connection", p.Pos(run.Pos()), "no probe helper reading from the connection before the request loops")
+		}
+	}
 }
 
 // recordEdge exempts, in the standard reader only, the edge taken when the
